@@ -121,6 +121,11 @@ func ConvWithGeometry(x, w, bias *T, pb, outExt, strides, dil []int) *Approx {
 							}
 						}
 						if !inside {
+							// a padded position holds 0: weight x 0 is 0 for a finite weight and NaN
+							// for an infinite or NaN weight (the sum is taken over the zero-padded input)
+							if wv := w.F((m*C+c)*kSp + k); wv != wv || math.IsInf(wv, 0) {
+								acc += wv * 0
+							}
 							continue
 						}
 						v := w.F((m*C+c)*kSp+k) * x.F((b*C+c)*inSp+Ravel(ic, xs[2:]))
